@@ -4,7 +4,8 @@
    written through go_slice / go_index in Frame/Checked.v. *)
 From Coq Require Import List NArith ZArith Bool.
 From LW Require Import Base.Outcome Base.Bytes Mac.Commands Mac.Stream Frame.Model Frame.Checked.
-From LW Require Frame.TotalProofs Mac.TotalProofs.
+From LW Require Import Frame.CheckedJoin.
+From LW Require Frame.TotalProofs Frame.TotalJoinProofs Mac.TotalProofs.
 From LW Require App.ClockSync App.Multicast App.FragCmds App.FwMgmt App.ClockSyncProofs App.MulticastProofs App.FragCmdsProofs App.FwMgmtProofs App.DecodeTotalProofs.
 From LW Require Mem.Heap Mem.Alias Mem.AliasProofs.
 From LWGen Require Import RegistryGen.
@@ -56,6 +57,19 @@ Proof.
   - unfold cflist_unmarshal. destruct (negb _); [split; discriminate|]. destruct (_ =? 1); split; discriminate.
 Qed.
 Print Assumptions C09_joinaccept_cflist_total.
+
+(* the same two decoders with every slice expression and index of payload.go executed through
+   go_slice / go_index (Panic exactly where Go panics): equal to the value model on every byte
+   string, hence a value or an error, never a panic *)
+Theorem C09_joinaccept_checked_is_model : forall data,
+  joinaccept_unmarshal_chk data = joinaccept_unmarshal data /\ cflist_unmarshal_chk data = cflist_unmarshal data.
+Proof. intros data. split; [exact (Frame.TotalJoinProofs.joinaccept_chk_eq data)|exact (Frame.TotalJoinProofs.cflist_chk_eq data)]. Qed.
+Print Assumptions C09_joinaccept_checked_is_model.
+
+Theorem C09_joinaccept_checked_total : forall data,
+  Frame.TotalProofs.okerr (joinaccept_unmarshal_chk data) /\ Frame.TotalProofs.okerr (cflist_unmarshal_chk data).
+Proof. intros data. split; [exact (Frame.TotalJoinProofs.joinaccept_unmarshal_total data)|exact (Frame.TotalJoinProofs.cflist_unmarshal_total data)]. Qed.
+Print Assumptions C09_joinaccept_checked_total.
 
 (* the four application-layer command decoders (single command and command stream,
    both directions): no panic, and the stream loops terminate - theorems of the C18 models *)
